@@ -24,13 +24,13 @@ theorem removeCsi_noEsc (s : List Char) (h : ∀ c ∈ s, c ≠ ESC) : removeCsi
 
 /-! ### skipping and plain text -/
 
-theorem tokAux_skip (p rest acc : List Char) : tokAux (p ++ rest) p.length acc = tokAux rest 0 acc := by
+theorem tokAux_skip (lazy : Bool) (p rest acc : List Char) : tokAux lazy (p ++ rest) p.length acc = tokAux lazy rest 0 acc := by
   induction p with
   | nil => rfl
   | cons c r ih => simpa [tokAux] using ih
 
-theorem tokAux_plain (p rest acc : List Char) (h : ∀ c ∈ p, c ≠ ESC) :
-    tokAux (p ++ rest) 0 acc = tokAux rest 0 (acc ++ p) := by
+theorem tokAux_plain (lazy : Bool) (p rest acc : List Char) (h : ∀ c ∈ p, c ≠ ESC) :
+    tokAux lazy (p ++ rest) 0 acc = tokAux lazy rest 0 (acc ++ p) := by
   induction p generalizing acc with
   | nil => simp
   | cons c r ih =>
@@ -41,15 +41,36 @@ theorem tokAux_plain (p rest acc : List Char) (h : ∀ c ∈ p, c ≠ ESC) :
 
 /-! ### the two lazy scans -/
 
-theorem findM_body (body rest : List Char) (h : ∀ c ∈ body, c ≠ 'm' ∧ c ≠ '\n') :
-    findM (body ++ 'm' :: rest) = some body := by
+theorem isSgrParam_ne {c : Char} (h : isSgrParam c = true) : c ≠ 'm' ∧ c ≠ '\n' := by
+  constructor <;> (intro hc; subst hc; revert h; decide)
+
+theorem findLazyM_body (body rest : List Char) (h : ∀ c ∈ body, c ≠ 'm' ∧ c ≠ '\n') :
+    findLazyM (body ++ 'm' :: rest) = some body := by
   induction body with
-  | nil => simp [findM]
+  | nil => simp [findLazyM]
   | cons c r ih =>
     obtain ⟨h1, h2⟩ := h c (by simp)
-    simp only [List.cons_append, findM, h1, h2, if_false]
+    simp only [List.cons_append, findLazyM, h1, h2, if_false]
     rw [ih (fun x hx => h x (by simp [hx]))]
     rfl
+
+theorem findSgrM_body (body rest : List Char) (h : ∀ c ∈ body, isSgrParam c = true) :
+    findSgrM (body ++ 'm' :: rest) = some body := by
+  induction body with
+  | nil => simp [findSgrM]
+  | cons c r ih =>
+    have hc := h c (by simp)
+    have h1 := (isSgrParam_ne hc).1
+    simp only [List.cons_append, findSgrM, h1, hc, if_false, if_true]
+    rw [ih (fun x hx => h x (by simp [hx]))]
+    rfl
+
+/-- an SGR parameter string is found by both forms of the pattern -/
+theorem findM_body (lazy : Bool) (body rest : List Char) (h : ∀ c ∈ body, isSgrParam c = true) :
+    findM lazy (body ++ 'm' :: rest) = some body := by
+  cases lazy
+  · exact findSgrM_body body rest h
+  · exact findLazyM_body body rest (fun c hc => isSgrParam_ne (h c hc))
 
 theorem findST_body (body rest : List Char) (h : ∀ c ∈ body, c ≠ ESC ∧ c ≠ '\n') :
     findST (body ++ ESC :: '\\' :: rest) = some body := by
@@ -63,18 +84,18 @@ theorem findST_body (body rest : List Char) (h : ∀ c ∈ body, c ≠ ESC ∧ c
 
 /-! ### the sequences the encoder writes -/
 
-theorem tokAux_sgr (body rest acc : List Char) (h : ∀ c ∈ body, c ≠ 'm' ∧ c ≠ '\n') :
-    tokAux (ESC :: '[' :: (body ++ 'm' :: rest)) 0 acc = flushPlain acc ++ .sgr body :: tokAux rest 0 [] := by
-  have hs := tokAux_skip (body ++ ['m']) rest []
+theorem tokAux_sgr (lazy : Bool) (body rest acc : List Char) (h : ∀ c ∈ body, isSgrParam c = true) :
+    tokAux lazy (ESC :: '[' :: (body ++ 'm' :: rest)) 0 acc = flushPlain acc ++ .sgr body :: tokAux lazy rest 0 [] := by
+  have hs := tokAux_skip lazy (body ++ ['m']) rest []
   simp only [List.append_assoc, List.singleton_append, List.length_append, List.length_cons,
     List.length_nil, Nat.zero_add] at hs
-  simp only [tokAux, if_true, findM_body body rest h]
+  simp only [tokAux, if_true, findM_body lazy body rest h]
   rw [hs]
 
-theorem tokAux_osc (body rest acc : List Char) (h : ∀ c ∈ body, c ≠ ESC ∧ c ≠ '\n') :
-    tokAux (ESC :: ']' :: (body ++ ESC :: '\\' :: rest)) 0 acc =
-      flushPlain acc ++ .osc body :: tokAux rest 0 [] := by
-  have hs := tokAux_skip (body ++ [ESC, '\\']) rest []
+theorem tokAux_osc (lazy : Bool) (body rest acc : List Char) (h : ∀ c ∈ body, c ≠ ESC ∧ c ≠ '\n') :
+    tokAux lazy (ESC :: ']' :: (body ++ ESC :: '\\' :: rest)) 0 acc =
+      flushPlain acc ++ .osc body :: tokAux lazy rest 0 [] := by
+  have hs := tokAux_skip lazy (body ++ [ESC, '\\']) rest []
   simp only [List.append_assoc, List.cons_append, List.nil_append, List.length_append, List.length_cons,
     List.length_nil, Nat.zero_add] at hs
   have hne : (']' : Char) ≠ '[' := by decide
@@ -93,8 +114,43 @@ theorem afterLastCR_foldl (s acc : List Char) (h : ∀ c ∈ s, c ≠ '\r') :
     rw [ih _ (fun x hx => h x (by simp [hx]))]
     simp
 
-theorem afterLastCR_noCR (s : List Char) (h : ∀ c ∈ s, c ≠ '\r') : afterLastCR s = s := by
-  simpa [afterLastCR] using afterLastCR_foldl s [] h
+theorem afterLastCRAsFound_noCR (s : List Char) (h : ∀ c ∈ s, c ≠ '\r') : afterLastCRAsFound s = s := by
+  simpa [afterLastCRAsFound] using afterLastCR_foldl s [] h
+
+theorem rstripCR_noCR (s : List Char) (h : ∀ c ∈ s, c ≠ '\r') : rstripCR s = s := by
+  unfold rstripCR
+  have : s.reverse.dropWhile (· = '\r') = s.reverse := by
+    cases hr : s.reverse with
+    | nil => rfl
+    | cons c r =>
+      have hc : c ≠ '\r' := h c (by rw [← List.mem_reverse, hr]; simp)
+      simp [List.dropWhile, hc]
+  rw [this, List.reverse_reverse]
+
+/-- a line without carriage returns is taken as it is, in both variants -/
+theorem afterLastCR_noCR (b : Bool) (s : List Char) (h : ∀ c ∈ s, c ≠ '\r') : afterLastCR b s = s := by
+  unfold afterLastCR
+  split
+  · exact afterLastCRAsFound_noCR s h
+  · rw [rstripCR_noCR s h]; exact afterLastCRAsFound_noCR s h
+
+/-- repaired (F31): trailing carriage returns (CR LF line ends) erase nothing -/
+theorem afterLastCR_trailing (s : List Char) (h : ∀ c ∈ s, c ≠ '\r') (k : Nat) :
+    afterLastCR false (s ++ List.replicate k '\r') = s := by
+  have hstrip : rstripCR (s ++ List.replicate k '\r') = s := by
+    unfold rstripCR
+    rw [List.reverse_append, List.reverse_replicate]
+    have h1 : ∀ (k : Nat) (t : List Char), (List.replicate k '\r' ++ t).dropWhile (· = '\r') = t.dropWhile (· = '\r') := by
+      intro k t
+      induction k with
+      | zero => rfl
+      | succ n ih => simp [List.replicate_succ, List.dropWhile, ih]
+    rw [h1]
+    have := rstripCR_noCR s h
+    unfold rstripCR at this
+    exact this
+  simp only [afterLastCR, Bool.false_eq_true, if_false, hstrip]
+  exact afterLastCRAsFound_noCR s h
 
 end Ansi
 end RichModel
